@@ -26,7 +26,7 @@ func (c04) Components() map[string][]string {
 	}
 }
 func (c04) ProbeNames() []string {
-	return []string{"created", "journal", "metadata-csum", "op-refused", "symlink", "remove", "attr-change", "reopen", "dir-growth", "fragmented-extents", "volume-share-write", "fill-reached-refusal", "extent-tree-depth2"}
+	return []string{"created", "journal", "metadata-csum", "op-refused", "symlink", "remove", "attr-change", "reopen", "dir-growth", "fragmented-extents", "volume-share-write", "fill-reached-refusal", "extent-tree-depth2", "truncating-open"}
 }
 func (c04) Budget(tier string) (int, int, int) {
 	if tier == "thorough" {
